@@ -89,7 +89,14 @@ var c17StringPool = []string{
 	"\u2028", "a\u2028b\u2029c", "\u00e9", "na\u00efve caf\u00e9", "\u65e5\u672c\u8a9e", "\U0001F600", "x\U0001F600y\U00010348", "\ufffd", "\u00a0",
 	"null", "true", "false", "123", "-0", "1e5", "[1, 2]", `{"k": 1}`, "<circular reference>", ", ", `": "`, "[", "]", "{", "}",
 	"</script>", "&amp;<>", "'single'", "%s %d", "$", "#",
+	// content that LOOKS like an escape sequence (a literal backslash followed by ...): a writer that
+	// post-processes the JSON text instead of tokens confuses these with real escapes
+	`\u003c`, `\u003e`, `\u0026`, `\u0000`, `\u2028`, `\u003C`, `\n`, `\t`, `\r`, `\"`, `\\`, `\\\`, `\/`, `\b`,
+	"<", ">", "&", "a<b && c>d", `write \u003c for <`, `x\\u0026y`, `\u003e\u003c&\u0026`, `&\u0026amp;`, `\\u003c\u003e`, `"\u003c"`, `\\n\n`,
 }
+
+// fragments for random strings: escape look-alikes and the characters encoding/json escapes
+var c17Lookalikes = []string{`\u003c`, `\u003e`, `\u0026`, `\u0000`, `\n`, `\t`, `\"`, `\\`, `\`, "<", ">", "&", `u003c`, `\u`}
 
 var c17DoublePool = []float64{
 	0, math.Copysign(0, -1), 1, -1, 2, 10, 100, 0.5, -0.5, 0.1, 0.2, 0.3, 1.0 / 3, 3.14159, -2.5e-5, 45.67,
@@ -108,7 +115,9 @@ func c17RandString(r *rand.Rand) string {
 	n := r.Intn(9)
 	var sb strings.Builder
 	for i := 0; i < n; i++ {
-		switch r.Intn(8) {
+		switch r.Intn(9) {
+		case 8:
+			sb.WriteString(c17Lookalikes[r.Intn(len(c17Lookalikes))])
 		case 0:
 			sb.WriteRune(rune(r.Intn(0x20))) // control
 		case 1:
@@ -154,7 +163,8 @@ func c17RandDouble(r *rand.Rand) float64 {
 }
 
 var c17SafeKeys = []string{"k", "k1", "k2", "name", "zeta", "Alpha_2", "x", "id", "v"}
-var c17NastyKeys = []string{"", " ", "a b", `q"t`, `b\s`, "\u00fcn\u00ef", "\U0001F600", "0", "-1", "nl\nkey", "tab\t", ": ", ", ", `": "`, "{", "null", "a.b", "$", "\u2028", "\x01"}
+var c17NastyKeys = []string{"", " ", "a b", `q"t`, `b\s`, "\u00fcn\u00ef", "\U0001F600", "0", "-1", "nl\nkey", "tab\t", ": ", ", ", `": "`, "{", "null", "a.b", "$", "\u2028", "\x01",
+	`\u003c`, `\u003ekey`, `\u0026`, `k\\u003c`, `\n`, `\"`, `\\`, "<", ">", "a&b", "<&>"}
 
 // c17Inst: the seeded instantiation of the atoms and keys of one vector.
 type c17Inst struct {
